@@ -510,4 +510,79 @@ theorem walk_reply {v : Ver} {r : Reply} {lf : Bytes} (hr : goodReply v r = true
       rw [filings_tail v (by rfl) hcs]
       simp [h2]
 
+/-- what the read loop does with the chunk that completes the echo of a request -/
+theorem bufStep_echo {v : Ver} {e : Echo} {lf a : Bytes} (he : goodEcho v e = true)
+    (hlf : allLF lf = true) (ha : v = .v10 ∨ startsLFOrEmpty a = true) (buf c : Bytes)
+    (hb : buf ++ c = (lf ++ e.body) ++ a) : bufStep v buf c = (a, none) := by
+  simp only [goodEcho, Bool.and_eq_true, beq_iff_eq] at he
+  obtain ⟨⟨⟨⟨_, hc⟩, _⟩, hfire⟩, hafter⟩ := he
+  have hfire' : delimMatch v ((lf ++ e.body) ++ a) = true := by
+    rw [List.append_assoc, delimMatch_lfs v _ hlf]
+    exact delimMatch_append a ha hfire
+  have hc' : containsRpcClose ((lf ++ e.body) ++ a) = true := by
+    rw [List.append_assoc, containsRpcClose_lfs _ hlf]
+    exact containsRpcClose_append a hc
+  have haf : afterFirstDelim v ((lf ++ e.body) ++ a) = a := by
+    unfold afterFirstDelim
+    rw [List.append_assoc, afterFirstOpt_lfs v _ hlf, afterFirstOpt_append a ha hafter]
+    simp
+  simp only [bufStep, hb, hfire', hc', haf, if_true]
+
+theorem walk_echo {v : Ver} {e : Echo} {lf : Bytes} (he : goodEcho v e = true)
+    (hlf : allLF lf = true) (rest : Bytes) (hrest : v = .v10 ∨ startsLFOrEmpty rest = true) :
+    ∀ (cs : List Bytes) (x0 : Bytes), x0 ++ cs.flatten = (lf ++ e.body) ++ rest →
+      (∃ s, s ≠ [] ∧ lf ++ e.body = x0 ++ s) →
+      ∃ x pre c cs2, cs = pre ++ c :: cs2 ∧ c ≠ [] ∧ x ++ cs2.flatten = rest ∧
+        filings v x0 cs = filings v x cs2 := by
+  have he' := he
+  simp only [goodEcho, Bool.and_eq_true, beq_iff_eq] at he'
+  obtain ⟨⟨⟨⟨_, _⟩, hne0⟩, _⟩, _⟩ := he'
+  have hNE : NoEarly v (lf ++ e.body) := noEarly_lfs hlf (noEarly_of_bool hne0)
+  intro cs
+  induction cs with
+  | nil =>
+    intro x0 hx ⟨s, hs, hsplit⟩
+    exfalso
+    simp only [List.flatten_nil, List.append_nil] at hx
+    have e1 := congrArg List.length hsplit
+    have e2 := congrArg List.length hx
+    simp only [List.length_append] at e1 e2
+    have e3 : 0 < s.length := List.length_pos_iff.mpr hs
+    omega
+  | cons c cs ih =>
+    intro x0 hx ⟨s, hs, hsplit⟩
+    simp only [List.flatten_cons] at hx
+    rw [← List.append_assoc] at hx
+    have hfireCase : ∀ c', x0 ++ c = (lf ++ e.body) ++ c' → rest = c' ++ cs.flatten →
+        ∃ x pre c1 cs2, c :: cs = pre ++ c1 :: cs2 ∧ c1 ≠ [] ∧ x ++ cs2.flatten = rest ∧
+          filings v x0 (c :: cs) = filings v x cs2 := by
+      intro c' h1 h2
+      have hc' : v = .v10 ∨ startsLFOrEmpty c' = true := by
+        rcases hrest with h | h
+        · exact Or.inl h
+        · rw [h2] at h; exact Or.inr (startsLF_of_append h)
+      have hstep := bufStep_echo he hlf hc' x0 c h1
+      refine ⟨c', [], c, cs, rfl, ?_, h2.symm, ?_⟩
+      · intro hcn
+        subst hcn
+        have e1 := congrArg List.length hsplit
+        have e2 := congrArg List.length h1
+        simp only [List.length_append, List.length_nil] at e1 e2
+        have e3 : 0 < s.length := List.length_pos_iff.mpr hs
+        omega
+      · rw [filings_cons, hstep]; simp
+    rcases List.append_eq_append_iff.mp hx with ⟨a', h1, h2⟩ | ⟨c', h1, h2⟩
+    · by_cases ha' : a' = []
+      · subst ha'
+        simp only [List.append_nil] at h1
+        exact hfireCase [] (by simpa using h1.symm) (by simpa using h2.symm)
+      · have hnf : delimMatch v (x0 ++ c) = false := hNE (x0 ++ c) a' h1 ha'
+        obtain ⟨x, pre, c1, cs2, hcs, hc1, hxr, hf⟩ :=
+          ih (x0 ++ c) (by rw [h2, ← List.append_assoc, ← h1]) ⟨a', ha', h1⟩
+        refine ⟨x, c :: pre, c1, cs2, by rw [hcs]; rfl, hc1, hxr, ?_⟩
+        rw [filings_cons, bufStep_nofire hnf]
+        simp only [Option.toList, List.nil_append]
+        exact hf
+    · exact hfireCase c' h1 h2
+
 end Scrapli.Netconf.Store
